@@ -50,8 +50,9 @@ def read_hdf5(filename):
                     if isinstance(dct[key], np.ndarray):
                         dct[key] = dct[key].tolist()
                 # If ndim is zero we do not want to cast it to an array
+                # Restore Python scalars like the JSON reader does, NumPy scalars behave differently, e.g., in sums
                 elif value.ndim == 0:
-                    dct[key] = value[()]
+                    dct[key] = value[()].item()
                 else:
                     dct[key] = xp.asarray(value[()])
             # Restore lists of arrays with different shapes
